@@ -119,6 +119,34 @@ pub fn boundary_strings() -> Vec<String> {
         .collect();
     v.push("x".repeat(255));
     v.push("x".repeat(256));
+    // first and last supplementary code points (UTF-16 surrogate pair boundaries D800 DC00 / DBFF DFFF)
+    v.push("\u{10000}".to_string());
+    v.push("\u{10FFFF}".to_string());
+    v
+}
+
+/// UTF-16 structure boundaries: last code point below the surrogate block, first above it, last BMP,
+/// first supplementary, low-surrogate wrap (DBC0 DFFF | DC01 DC00 → D800 DFFF / D801 DC00), last
+/// code point whose high surrogate is DBFE, first whose high surrogate is DBFF, last non-character-free
+/// scalar and char::MAX.
+pub const UTF16_BOUNDARY_CHARS: [char; 10] = [
+    '\u{D7FF}', '\u{E000}', '\u{FFFF}', '\u{10000}', '\u{103FF}', '\u{10400}', '\u{10FBFF}', '\u{10FC00}', '\u{10FFFD}', '\u{10FFFF}',
+];
+
+/// MacRoman boundaries: last ASCII byte 0x7F, byte 0x80 (U+00C4), byte 0xFF (U+02C7), the smallest
+/// (U+00A0) and largest (U+FB02) remapped code points, the private-use Apple logo (U+F8FF), and
+/// U+00A4, which lies between two mapped code points but is not in MacRoman (must be rejected there).
+pub const MACROMAN_BOUNDARY_CHARS: [char; 7] = ['\u{7F}', '\u{C4}', '\u{2C7}', '\u{A0}', '\u{FB02}', '\u{F8FF}', '\u{A4}'];
+
+/// Strings of the name / post / meta product families: the X2 string alphabet followed by every
+/// boundary character in first, middle and last position of a three-character string.
+pub fn family_strings() -> Vec<String> {
+    let mut v = boundary_strings();
+    for c in UTF16_BOUNDARY_CHARS.iter().chain(MACROMAN_BOUNDARY_CHARS.iter()) {
+        v.push(format!("{c}ab"));
+        v.push(format!("a{c}b"));
+        v.push(format!("ab{c}"));
+    }
     v
 }
 
